@@ -86,7 +86,9 @@ public:
 
   double pProb(double x) const
   {
-    if (x >= tp_)
+    if (x <= 0)
+      return 0.;
+    else if (x >= tp_)
       return 1.;
     else
       return (1. - exp(-lambda_ * x)) / cond_;
@@ -102,7 +104,9 @@ public:
 
   double Expectation(double a) const
   {
-    if (a < tp_)
+    if (a <= 0)
+      return 0.;
+    else if (a < tp_)
       return (1. / lambda_ - exp(-a * lambda_) * (a + 1. / lambda_)) / cond_;
     else
       return (1. / lambda_ - exp(-tp_ * lambda_) * (tp_ + 1. / lambda_)) / cond_;
